@@ -156,6 +156,28 @@ def run_pairs(acc, nt, block, nblocks):
                     elif not type_ok(o[1], nt, rational):
                         acc.violation(["unit-pair", api, "numeric-type-contaminated", nt], case, nt, type(o[1]).__name__)
                 acc.outcome("rational" if rational else "irrational")
+                # ndarray magnitudes (float registry): the same factor elementwise, the SOURCE untouched by the
+                # returning forms — asked twice on the same object, plainly and with a context named — and ito in place
+                if nt == "float" and a != b:
+                    import numpy as np
+
+                    src = np.array([0.75, -2.0, 8.0])
+                    q = ureg.Quantity(src.copy(), a)
+                    w = float(want.dec(30)) / 0.75
+                    for api, fn in (("to[array]", lambda: q.to(b).magnitude), ("to[array]#2", lambda: q.to(b).magnitude), ("to[array, context]", lambda: q.to(b, "sp").magnitude), ("to[array, context]#2", lambda: q.to(b, "sp").magnitude),
+                                    ("m_as[array]", lambda: q.m_as(b)), ("convert[array]", lambda: ureg.convert(q.magnitude, a, b))):
+                        acc.ev()
+                        o = conv_out(fn)
+                        if o[0] != "ok" or not np.allclose(np.asarray(o[1], dtype=float), src * w, rtol=1e-12, atol=0):
+                            acc.violation(["unit-pair", api, "wrong-factor", nt], case, (src * w).tolist(), o[1] if o[0] != "ok" else np.asarray(o[1]).tolist())
+                        if not np.array_equal(q.magnitude, src) or dict(q._units) != {a: 1}:
+                            acc.violation(["unit-pair", api, "source-modified-by-a-returning-conversion", nt], case, src.tolist(), np.asarray(q.magnitude).tolist())
+                            q = ureg.Quantity(src.copy(), a)
+                    q2 = ureg.Quantity(src.copy(), a)
+                    o = conv_out(lambda: (q2.ito(b), q2.magnitude)[1])
+                    acc.ev()
+                    if o[0] != "ok" or not np.allclose(np.asarray(o[1], dtype=float), src * w, rtol=1e-12, atol=0) or dict(q2._units) != {b: 1}:
+                        acc.violation(["unit-pair", "ito[array]", "wrong-factor", nt], case, (src * w).tolist(), o[1] if o[0] != "ok" else np.asarray(o[1]).tolist())
         # identity on every unit, int magnitude stays exact in exact registries
         for a in us:
             acc.ev()
